@@ -106,36 +106,52 @@ def one_call(fn, F, args, cname, as_col):
     return {"k": "ok", "sql": "non-Column result: " + repr(r)[:300], "tree": repr(r)[:300]}
 
 
+def call_pair(fn, F, args, cname):
+    a = one_call(fn, F, args, cname, False)
+    b = one_call(fn, F, args, cname, True)
+    if b["k"] != "ok":
+        verdict = "B"
+    elif a["k"] != "ok":
+        verdict = "R"
+    elif a["sql"] == b["sql"]:
+        verdict = "E"
+    else:
+        verdict = "D"
+    return {"name": cname, "verdict": verdict,
+            "str_form": a.get("sql", a.get("exc")), "col_form": b.get("sql", b.get("exc")),
+            "tree_equal": a.get("tree") == b.get("tree") if a["k"] == b["k"] == "ok" else None,
+            "fp_str": a.get("fp"), "fp_col": b.get("fp")}
+
+
 def main():
     engine = sys.argv[1]
     req = json.load(sys.stdin)
     session = make_session(engine)
     F = importlib.import_module(f"sqlframe.{engine}.functions")
-    out = []
+    out, by_id = [], {}
     for v in req["vectors"]:
         fn = getattr(F, v["fname"], None)
         if fn is None:
             out.append({"id": v["id"], "verdict": "absent"})
             continue
-        per_name = []
-        for cname in req["names"]:
-            a = one_call(fn, F, v["args"], cname, False)
-            b = one_call(fn, F, v["args"], cname, True)
-            if b["k"] != "ok":
-                verdict = "B"
-            elif a["k"] != "ok":
-                verdict = "R"
-            elif a["sql"] == b["sql"]:
-                verdict = "E"
-            else:
-                verdict = "D"
-            rec = {"name": cname, "verdict": verdict,
-                   "str_form": a.get("sql", a.get("exc")), "col_form": b.get("sql", b.get("exc")),
-                   "tree_equal": a.get("tree") == b.get("tree") if a["k"] == b["k"] == "ok" else None,
-                   "fp_str": a.get("fp"), "fp_col": b.get("fp")}
-            per_name.append(rec)
-        out.append({"id": v["id"], "per_name": per_name})
-    json.dump({"engine": engine, "session_class": type(session).__mro__[1].__name__ if engine not in ("standalone", "duckdb")
+        rec = {"id": v["id"], "per_name": [call_pair(fn, F, v["args"], cname) for cname in req["names"]]}
+        out.append(rec)
+        by_id[v["id"]] = (fn, v, rec)
+    # second pass -- the property quantifies over configurations: the SAME session is re-configured to another flavour
+    # of its input dialect (identifier normalisation: case-sensitive), as builder.config("sqlframe.input.dialect", ...)
+    # does, and a mixed-case name is passed.  Anything memoised per dialect during the first pass is now stale.
+    from sqlglot import Dialect
+    from sqlframe.base.util import dialect_to_string
+    old = session.input_dialect
+    reconf = dialect_to_string(old) + ", normalization_strategy=case_sensitive"
+    session.input_dialect = Dialect.get_or_raise(reconf)
+    try:
+        for fn, v, rec in by_id.values():
+            rec["reconfigured"] = [call_pair(fn, F, v["args"], cname) for cname in req.get("reconf_names", [])]
+    finally:
+        session.input_dialect = old
+    json.dump({"engine": engine, "reconfigured_input_dialect": reconf,
+               "session_class": type(session).__mro__[1].__name__ if engine not in ("standalone", "duckdb")
                else type(session).__name__, "answers": out}, sys.stdout)
 
 
